@@ -9,7 +9,7 @@
 From Coq Require Import List NArith Bool.
 From Frugal Require Import Bytes Wire Skip Values Desc Spec Encode Decode Checks Tags State Bitset Alloc DescMap Conc LegacyDefs.
 From Frugal.gen Require Import Params.
-From Frugal.proofs Require Import GenOk BytesWire EncodeSpec SizeExact SkipPut DecodeSafe DecodeRefines RoundTrip Corollaries StateProofs BitsetProofs AllocProofs DescMapProofs ConcProofs BufferContract.
+
 From Frugal.proofs Require Import TagsProofs TagsStruct.
 From Coq Require Import Sorted Permutation.
 From Frugal.props Require Import Examples.
